@@ -68,7 +68,7 @@ def gen_case(rng):
     rk = lambda rmax=4: [1] + [rng.randint(1, rmax) for _ in range(d - 1)] + [1]
     p['RA'] = rk(3 if routine == 'amen_mm' else 4)
     p['RB'] = rk(3 if routine == 'amen_mm' else 4)
-    p['vals'] = rng.choice(['normal', 'normal', 'decay', 'scaled', 'graded', 'graded', 'tiny', 'huge'])
+    p['vals'] = rng.choice(['normal', 'normal', 'decay', 'scaled', 'graded', 'graded', 'tiny', 'tiny', 'huge'])
     # 'tiny'/'huge': the whole operand is scaled by 10^-+s (the contract is relative, so it must be scale invariant);
     # half of these also have a graded spectrum
     p['scale_exp'] = rng.randint(4, 15)
